@@ -5,6 +5,7 @@ package main
 import (
 	"bytes"
 	"encoding/hex"
+	"encoding/json"
 	"errors"
 	"fmt"
 	"hash/fnv"
@@ -13,6 +14,7 @@ import (
 	"math"
 	"os"
 	"reflect"
+	"sort"
 	"strings"
 	"testing"
 
@@ -21,6 +23,7 @@ import (
 	datastorepb "google.golang.org/genproto/googleapis/datastore/v1"
 	"google.golang.org/protobuf/encoding/protowire"
 	"google.golang.org/protobuf/proto"
+	"google.golang.org/protobuf/reflect/protodesc"
 	"google.golang.org/protobuf/reflect/protoreflect"
 	"google.golang.org/protobuf/reflect/protoregistry"
 	"google.golang.org/protobuf/types/descriptorpb"
@@ -58,6 +61,98 @@ type vfStep struct {
 	Wire string `json:"wireHex"` // standard encoding of the content (how the replay rebuilds it)
 	How  string `json:"how,omitempty"`
 	Dyn  bool   `json:"dynamic,omitempty"` // the object is a dynamicpb message of that type instead of the generated Go type
+}
+
+// Message types that declare field number 2047 themselves (built at run time, used through dynamicpb). The codec
+// prepends its checksum as field 2047 with the 32-bit wire type without looking at the descriptor: for a type that
+// declares 2047 with a 32-bit kind the checksum is decoded INTO that field (known finding, see DESIGN.md); for any
+// other kind the wire type does not match and parsers keep it as an unknown field.
+var vfOwnTypes = func() map[string]protoreflect.MessageDescriptor {
+	lbl := func(rep bool) *descriptorpb.FieldDescriptorProto_Label {
+		if rep {
+			return descriptorpb.FieldDescriptorProto_LABEL_REPEATED.Enum()
+		}
+		return descriptorpb.FieldDescriptorProto_LABEL_OPTIONAL.Enum()
+	}
+	mk := func(name string, t descriptorpb.FieldDescriptorProto_Type, rep bool) *descriptorpb.DescriptorProto {
+		return &descriptorpb.DescriptorProto{Name: proto.String(name), Field: []*descriptorpb.FieldDescriptorProto{
+			{Name: proto.String("name"), Number: proto.Int32(1), Type: descriptorpb.FieldDescriptorProto_TYPE_STRING.Enum(), Label: lbl(false), JsonName: proto.String("name")},
+			{Name: proto.String("tail"), Number: proto.Int32(2047), Type: t.Enum(), Label: lbl(rep), JsonName: proto.String("tail")},
+			{Name: proto.String("after"), Number: proto.Int32(2048), Type: descriptorpb.FieldDescriptorProto_TYPE_BYTES.Enum(), Label: lbl(false), JsonName: proto.String("after")},
+		}}
+	}
+	fd := &descriptorpb.FileDescriptorProto{Name: proto.String("verif_own2047.proto"), Package: proto.String("verif"), Syntax: proto.String("proto3"),
+		MessageType: []*descriptorpb.DescriptorProto{
+			mk("Own2047Fixed32", descriptorpb.FieldDescriptorProto_TYPE_FIXED32, false), mk("Own2047Sfixed32", descriptorpb.FieldDescriptorProto_TYPE_SFIXED32, false),
+			mk("Own2047Float", descriptorpb.FieldDescriptorProto_TYPE_FLOAT, false), mk("Own2047RepFixed32", descriptorpb.FieldDescriptorProto_TYPE_FIXED32, true),
+			mk("Own2047String", descriptorpb.FieldDescriptorProto_TYPE_STRING, false), mk("Own2047Uint64", descriptorpb.FieldDescriptorProto_TYPE_UINT64, false),
+			mk("Own2047Bytes", descriptorpb.FieldDescriptorProto_TYPE_BYTES, false), mk("Own2047Fixed64", descriptorpb.FieldDescriptorProto_TYPE_FIXED64, false),
+		}}
+	f, err := protodesc.NewFile(fd, nil)
+	if err != nil {
+		panic(err)
+	}
+	out := map[string]protoreflect.MessageDescriptor{}
+	for i := 0; i < f.Messages().Len(); i++ {
+		md := f.Messages().Get(i)
+		out[string(md.FullName())] = md
+	}
+	return out
+}()
+
+var vfOwnNames = func() []string {
+	var l []string
+	for n := range vfOwnTypes {
+		l = append(l, n)
+	}
+	sort.Strings(l)
+	return l
+}()
+
+// vfDeclares2047As32bit: the type declares field 2047 with a kind that travels in the 32-bit wire type.
+func vfDeclares2047As32bit(typ string) bool {
+	md := vfOwnTypes[typ]
+	if md == nil {
+		return false
+	}
+	f := md.Fields().ByNumber(2047)
+	if f == nil {
+		return false
+	}
+	switch f.Kind() {
+	case protoreflect.Fixed32Kind, protoreflect.Sfixed32Kind, protoreflect.FloatKind:
+		return true
+	}
+	return false
+}
+
+var vfKnownPrinted = map[string]bool{}
+
+// vfKnownFinding returns the text of the open known finding (known_findings.json) that explains failure f of a step
+// on type typ, or "". It never adds to the file.
+func vfKnownFinding(typ, f string) string {
+	if !vfDeclares2047As32bit(typ) || !strings.Contains(f, "decoded message") {
+		return ""
+	}
+	b, err := os.ReadFile(os.Getenv("VERIF_KNOWN"))
+	if err != nil {
+		return ""
+	}
+	var k struct {
+		Findings []struct {
+			Property, Status, ID, What string
+			Signature                  struct{ Kind string }
+		}
+	}
+	if json.Unmarshal(b, &k) != nil {
+		return ""
+	}
+	for _, x := range k.Findings {
+		if x.Property == "C19" && x.Status == "open" && x.Signature.Kind == "message-type-declares-field-2047-with-a-32-bit-kind" {
+			return x.What
+		}
+	}
+	return ""
 }
 
 type vfCodecCase struct {
@@ -449,6 +544,9 @@ func vfFillMsg(rt *rapid.T, m protoreflect.Message, depth int) {
 		n := rapid.IntRange(1, 3).Draw(rt, "nunk")
 		for j := 0; j < n; j++ {
 			num := protowire.Number(rapid.SampledFrom([]int{1000, 1999, 2047, 2048, 19000 - 1, 536870911}).Draw(rt, "unum"))
+			if m.Descriptor().Fields().ByNumber(num) != nil {
+				continue // a declared field: bytes under that number would not be unknown fields
+			}
 			switch rapid.IntRange(0, 3).Draw(rt, "utyp") {
 			case 0:
 				u = protowire.AppendVarint(protowire.AppendTag(u, num, protowire.VarintType), rapid.Uint64().Draw(rt, "uv"))
@@ -538,6 +636,9 @@ func vfRunOne(m proto.Message) (*vfCodecCase, string, map[string]int) {
 }
 
 func vfNewOf(typ string, dyn bool) (proto.Message, error) {
+	if md := vfOwnTypes[typ]; md != nil {
+		return dynamicpb.NewMessage(md), nil
+	}
 	mt, err := protoregistry.GlobalTypes.FindMessageByName(protoreflect.FullName(typ))
 	if err != nil {
 		return nil, err
@@ -707,6 +808,13 @@ func vfGenHistory(rt *rapid.T) *vfCodecCase {
 		kind := rapid.IntRange(0, 5).Draw(rt, "kind")
 		switch {
 		case m == nil || kind == 0:
+			if rapid.IntRange(0, 11).Draw(rt, "own2047") == 0 {
+				dm := dynamicpb.NewMessage(vfOwnTypes[rapid.SampledFrom(vfOwnNames).Draw(rt, "owntype")])
+				vfBudget, vfBytes = 50, 1<<16
+				vfFillMsg(rt, dm, 1)
+				m, live[slot], dyn[slot] = dm, dm, true
+				break
+			}
 			m = vfGenMessage(rt)
 			live[slot] = m
 			dyn[slot] = rapid.IntRange(0, 5).Draw(rt, "dyn") == 0
@@ -779,6 +887,16 @@ func TestC19(t *testing.T) {
 	rapid.Check(t, func(rt *rapid.T) {
 		c := vfGenHistory(rt)
 		f, l, at := vfRunHistory(c)
+		if f != "" && at < len(c.Steps) {
+			if k := vfKnownFinding(c.Steps[at].Type, f); k != "" {
+				if !vfKnownPrinted[k] {
+					vfKnownPrinted[k] = true
+					fmt.Printf("KNOWN-FINDING: property=C19 %s\n", k)
+				}
+				st.Label("case-ends-in-a-known-finding", 1)
+				c.Steps, f = c.Steps[:at], "" // what came before the known finding counts as explored
+			}
+		}
 		if f != "" {
 			st.Failed()
 			c.Steps = c.Steps[:at+1]
